@@ -220,7 +220,7 @@ func C12(tier rt.Tier) int {
 				}
 				name += "}"
 				d := depth
-				if len(req) > 3 {
+				if len(req) > 3 || (tier == rt.Quick && len(req) > 2) {
 					d = 1 // the sequence space grows as (3|req|)^d; larger requests get single follow-ups (pairs in thorough)
 					if tier == rt.Thorough {
 						d = 2
